@@ -35,8 +35,20 @@ THEOREMS = [
     "C09.replace_same_count_stale",
     "C09.stale_candidate_noop",
     "C09.livePos_missing",
+    # value classes and operators (RreModel/C09/ValTheorems.lean): Null as a present value, string operators / In, the goal-pattern
+    # round trip on text; bounded completeness over histories
+    "C09.null_is_not_absent",
+    "C09.cmpEval_eq_refl",
+    "C09.null_string_quirk",
+    "C09.reparse_of_parse",
+    "C09.reparse_bool_null",
+    "C09.reparse_table",
+    "C09.dfs_complete_needs_roundtrip_str",
+    "C09.string_op_subgoal_proven_in_never",
+    "C09.rebuild_eq_new",
+    "C09.hist_complete_partial",
 ]
-LEAN_TARGETS = ["RreModel.C09.Theorems", "RreModel.C09.ExtTheorems", "RreModel.C09.HistTheorems"]
+LEAN_TARGETS = ["RreModel.C09.Theorems", "RreModel.C09.ExtTheorems", "RreModel.C09.HistTheorems", "RreModel.C09.ValTheorems"]
 N = {"quick": 1500, "thorough": 20000}
 EXHAUSTIVE = {"quick": False, "thorough": False}
 RULE = ("cases = corpus (defect witnesses) + N generated problems (50% consistent-Horn KBs: one value per field, conjunctive "
@@ -75,6 +87,12 @@ RULE = ("cases = corpus (defect witnesses) + N generated problems (50% consisten
         "+ N/40 single queries on engines built by BackwardEngine::new; + N/8 problems over KEYWORD-LIKE field names (vocabulary v1: NOTICE, "
         "ORDER, ANDROID, trueCount, NOTE, nullable, inStock, NOTIFY.Sent, NOT.Q - names that start with / contain NOT, OR, AND, true, null, in), "
         "each under EVERY strategy, 1 in 5 negated, 1 in 6 a history. "
+        "+ N/6 VALUE-CLASS problems (S09), each under EVERY strategy: Value::Null as a PRESENT fact value / Set literal / condition and query literal "
+        "(`z`; present-Null vs absent vs the string \"null\", which `==` takes for null as soon as one side is Null; a Null fact that a rule fired "
+        "during a FAILING proof attempt overwrites must come back as Null), the string operators Contains / NotContains / StartsWith / EndsWith / "
+        "Matches and In in rule conditions that become sub-goals (the pattern text condition_to_goal_pattern prints and parse_goal_pattern / "
+        "parse_value_string read back is modelled on the text: C09.reparse), string literals containing operator text, quotes, blanks "
+        "(`%hh` escapes; a lone `\"` behind a cut panicked before fix F-C09i), random KBs over all value classes and all twelve operators. "
         "Each case runs BackwardEngine::query on a fresh engine (real code); observed: provable, "
         "get_all_facts after, undo depth after (hook), #solutions. Oracles evaluated by the Lean driver on the implementation's "
         "observations, none of them running the search model: (i) provable => goal comparison true in the facts handed back; "
@@ -100,7 +118,7 @@ ASSUMPTIONS = [
     "rule actions are Set field := literal, Append field += scalar literal, Retract field, MethodCall field.setSpeed(Number) (the action list "
     "is modelled as its leading Set actions `acts` plus the rest `more`; the completeness theorems are about rules with Set actions only); "
     "conditions are And/Or trees of `field op literal` (Field expressions); Object values only as {Speed: Number} on un-dotted field names "
-    "(get_nested of a one-component path is get); arrays hold scalars; strings in the tie are non-numeric; Number literals are whole (no rounding); "
+    "(get_nested of a one-component path is get); arrays hold scalars; strings in the tie are printable ASCII and read as numbers only in the form -?[0-9]+ (Value::to_number parses strings); field names contain no blank and none of `= ! < >` (the goal-pattern round trip is modelled on the text behind the name); QUERY texts keep the six comparison operators and literals without operator characters (the query-language parser is C05's subject), negated queries no Null literal; Number literals are whole (no rounding); "
     "no Value::Expression arguments; Log and the no-op action arms are not driven",
     "no RETE engine attached (query, not query_with_rete_engine with Some(engine)): no proof-graph cache, no TMS inserter",
     "the query goal has no sub_goals (BackwardEngine::query never creates any), so BFS works at depth 0 only",
